@@ -123,17 +123,21 @@ type InputEvent struct {
 
 // Trace is everything observed in one run.
 type Trace struct {
-	Spin        bool // the case exceeded its real-time budget twice (a goroutine spins); only Deadlock is set then
-	NewErr      string
-	Deadlock    string
-	Leaked      []string
-	Deliveries  []Delivery
-	Snaps       []Snap
-	MaxInFlight int
-	MaxPerPrio  map[uint]int // highest in-flight count seen per priority before the epilogue
-	OverCommit  string       // first moment in-flight exceeded H
-	Noops       int
-	OpsDone     int
+	SpinAfterStop    bool   // spin verdict: Stop()/cancel had been issued
+	SpinAfterFault   bool   // spin verdict: the fault of the plan had been injected
+	HarnessPanic     string // a panic of the harness itself (never blamed on the library)
+	RetriedAfterSpin bool   // first attempt was abandoned (its goroutines may still run)
+	Spin             bool   // the case exceeded its real-time budget twice (a goroutine spins); only Deadlock is set then
+	NewErr           string
+	Deadlock         string
+	Leaked           []string
+	Deliveries       []Delivery
+	Snaps            []Snap
+	MaxInFlight      int
+	MaxPerPrio       map[uint]int // highest in-flight count seen per priority before the epilogue
+	OverCommit       string       // first moment in-flight exceeded H
+	Noops            int
+	OpsDone          int
 
 	DivCalls            int
 	DivSamples          []DivViolation // a few calls, for the evidence
